@@ -8,6 +8,7 @@ import (
 	"fmt"
 	"math/bits"
 	"sort"
+	"strings"
 
 	"github.com/ipfs/go-cid"
 	"github.com/ipfs/go-unixfsnode/data/builder"
@@ -48,6 +49,9 @@ func withWidth(w int, f func()) {
 
 func genWidth(t *rapid.T) int {
 	switch rapid.IntRange(0, 19).Draw(t, "wclass") {
+	case 17:
+		// wider than the default: DefaultLinksPerBlock is a setting, and other writers use other widths
+		return rapid.SampledFrom([]int{175, 200, 256, 257, 300, 1000}).Draw(t, "widew")
 	case 18:
 		return rapid.IntRange(7, 16).Draw(t, "w")
 	case 19:
@@ -179,7 +183,7 @@ func lcgBytes(n int, seed byte, period int) []byte {
 
 // ---------------------------------------------------------------- names
 
-var specialNames = []string{".", "..", "%41", "c d", " ", "00", "0A", "FFx", "0", "A", "a", "Links", "Data", "00a", "é", "漢字", "\xff\xfe", "x.txt", "-", "~", "\x00", "a\nb"}
+var specialNames = []string{"7", "007", "-1", "2024", "9223372036854775807", ".", "..", "%41", "c d", " ", "00", "0A", "FFx", "0", "A", "a", "Links", "Data", "00a", "é", "漢字", "\xff\xfe", "x.txt", "-", "~", "\x00", "a\nb"}
 
 var asciiNameGen = rapid.StringMatching(`[a-cA-F0-9 %._-]{1,6}`)
 
@@ -248,7 +252,18 @@ func genNames(t *rapid.T, o nameOpts) ([]string, []string) {
 			if shared >= 60 {
 				classes["crafted>=60bits"] = true
 			}
-		case 0, 1:
+		case 0:
+			if rapid.Bool().Draw(t, "longnames") {
+				// names around and beyond 255 bytes (a filesystem's limit, not a UnixFS one)
+				tag := rapid.StringMatching(`[a-z]{3}`).Draw(t, "longtag")
+				for _, n := range rapid.SliceOfNDistinct(rapid.SampledFrom([]int{200, 254, 255, 256, 257, 258, 300, 511, 512, 1000, 4096}), 1, 4, rapid.ID[int]).Draw(t, "longlens") {
+					add(tag + strings.Repeat("n", n-3))
+				}
+				classes["long(>=200)"] = true
+				break
+			}
+			fallthrough
+		case 1:
 			for _, s := range rapid.SliceOfN(asciiNameGen, 1, 8).Draw(t, "ascii") {
 				add(s)
 			}
@@ -375,7 +390,8 @@ func entryForKind(name string, salt, kind int) entrySpec {
 	case 2:
 		id := name
 		if len(id) > 12 {
-			id = id[:12]
+			// (distinct names must get distinct links: the size model is keyed by link)
+			id = c.Hash().B58String()[:12]
 		}
 		mhash, err := mh.Sum([]byte("id:"+id), mh.IDENTITY, -1)
 		if err != nil {
